@@ -19,6 +19,16 @@ var VerifOnApply func(nodeId uint64, group uuid.UUID, entry raftpb.Entry)
 // has been handed to the group's snapshot process function.
 var VerifOnSnapshotApplied func(nodeId uint64, group uuid.UUID, index uint64, term uint64)
 
+// VerifOnStart is called when a group starts (or starts again) on a node, with the index
+// of the local snapshot it resumes from (0: none).
+var VerifOnStart func(nodeId uint64, group uuid.UUID, index uint64)
+
+func verifOnStart(g *RaftGroup, snap raftpb.Snapshot) {
+	if VerifOnStart != nil {
+		VerifOnStart(g.transport.nodeId, g.id, snap.Metadata.Index)
+	}
+}
+
 func verifOnApply(g *RaftGroup, entry raftpb.Entry) {
 	if VerifOnApply != nil {
 		VerifOnApply(g.transport.nodeId, g.id, entry)
